@@ -21,6 +21,7 @@ func Pipe() (*InPort, *OutPort) {
 			tracer.Read(reader, inPck)
 			tracer.Write(writer, inPck)
 		}
+		tracer.Drop(writer)
 	}))
 
 	outPort.AddListener(ListenFunc(func(proc *process.Process) {
